@@ -92,17 +92,24 @@ theorem scaledValidate_total (scale min max : F) (v : PVal F) : Total (scaledVal
   have h0 := scaledCall_total scale v
   have h1 := scaledCall_total scale (.float min)
   have h2 := scaledCall_total scale (.float max)
-  split
-  · rename_i e he; intro c hc; injection hc with hc; exact h0 c (by rw [he, hc])
-  · split
-    · exact total_wrongType
-    · split
-      · cases hlo : scaledCall scale (PVal.float min) <;> cases hhi : scaledCall scale (PVal.float max) <;> simp only
-        · rename_i e e'; intro c hc; injection hc with hc; exact h1 c (by rw [hlo, hc])
-        · rename_i e hi; intro c hc; injection hc with hc; exact h1 c (by rw [hlo, hc])
-        · rename_i lo e; intro c hc; injection hc with hc; exact h2 c (by rw [hhi, hc])
+  cases hres : scaledCall scale v with
+  | error e => simp only; intro c hc; injection hc with hc; exact h0 c (by rw [hres, hc])
+  | ok result =>
+    simp only
+    cases hlo : scaledCall scale (PVal.float min) with
+    | error e => simp only; intro c hc; injection hc with hc; exact h1 c (by rw [hlo, hc])
+    | ok lo =>
+      cases hhi : scaledCall scale (PVal.float max) with
+      | error e => simp only; intro c hc; injection hc with hc; exact h2 c (by rw [hhi, hc])
+      | ok hi =>
+        simp only
+        split
         · exact total_ok _
-      · exact total_range
+        · split
+          · exact total_wrongType
+          · split
+            · exact total_ok _
+            · exact total_range
 
 theorem enumCall_total (ms : List (String × Int)) (v : PVal F) : Total (enumCall ms v) := by
   cases v <;> simp only [enumCall]
